@@ -272,3 +272,79 @@ Section C.
   Qed.
 End C.
 Print Assumptions g_check_convergence_eq.
+
+(* ---- x_update_prox as translated: the eigenvalue vector the code builds is the model's scalar map applied to every
+   eigenvalue returned by eigh, and the result is compress(rho_scale * (q @ diag(...) @ q.T)).  eigh, the matrix products,
+   np.diag and compress_matrix are uninterpreted (LAPACK / BLAS / modelled elsewhere) ---- *)
+Section X.
+  Variable F : Type.
+  Variables (zero one two four : F) (add sub mul div : F -> F -> F) (sqrt : F -> F) (ltb : F -> F -> bool).
+  Variable of_int : Z -> F.
+  Variable flit : string -> F.
+  Variable M : Type.
+  Variable np_eigh : M -> list F * M.
+  Variable np_matmul : M -> M -> M.
+  Variable np_transpose : M -> M.
+  Variable np_mat_sub : M -> M -> M.
+  Variable np_mat_scale : F -> M -> M.
+  Variable np_diag : list F -> M.
+  Variable compress : M -> list F.
+  Hypothesis of_int_0 : of_int 0%Z = zero.
+  Hypothesis of_int_1 : of_int 1%Z = one.
+  Hypothesis of_int_2 : of_int 2%Z = two.
+  Hypothesis of_int_4 : of_int 4%Z = four.
+
+  Lemma where_vv_map3 (c : list bool) (a b : list F) :
+    length a = length c -> length b = length c ->
+    where_vv c a b = map (fun t : bool * F * F => if fst (fst t) then snd (fst t) else snd t) (combine (combine c a) b).
+  Proof.
+    revert a b. induction c as [|ci c IH]; intros a b Ha Hb.
+    - destruct a; destruct b; reflexivity.
+    - destruct a as [|x a]; [discriminate|]. destruct b as [|y b]; [discriminate|].
+      cbn [where_vv combine map fst snd]. f_equal. apply IH; [injection Ha as Ha; exact Ha | injection Hb as Hb; exact Hb].
+  Qed.
+
+  Lemma eigenvalue_vector (rho : F) (d : list F) :
+    let det := map2 add (map (fun a => mul a a) d) (map (fun a => mul (mul four rho) a) (repeat one (length d))) in
+    let root := map sqrt det in
+    let safe := where_vv (map (fun a => ltb a zero) d) (map2 sub root d) (repeat (flit "1.0") (length d)) in
+    where_vv (map (fun a => ltb a zero) d) (map (fun a => div (mul four rho) a) safe) (map2 add d root)
+    = map (theta_num zero one add sub mul div sqrt ltb four rho) d.
+  Proof.
+    cbn zeta. induction d as [|x d IH]; [reflexivity|].
+    cbn [length repeat map map2 where_vv]. unfold theta_num at 1.
+    destruct (ltb x zero); f_equal; exact IH.
+  Qed.
+
+  Theorem g_x_update_prox_eq (S zmu : M) (rho : F) :
+    let dq := np_eigh (np_mat_sub (np_mat_scale rho zmu) S) in
+    g_x_update_prox F one add sub mul div ltb of_int flit M sqrt np_eigh np_matmul np_transpose np_mat_sub np_mat_scale np_diag compress S zmu rho
+    = Ret (compress (np_mat_scale (rho_scale one mul div two rho)
+                       (np_matmul (np_matmul (snd dq) (np_diag (map (theta_num zero one add sub mul div sqrt ltb four rho) (fst dq))))
+                                  (np_transpose (snd dq))))).
+  Proof.
+    intros dq. unfold g_x_update_prox. fold dq.
+    set (d := fst dq). set (q := snd dq).
+    rewrite of_int_0, of_int_1, of_int_2, of_int_4.
+    assert (L1 : length (map (fun a => mul a a) d) = length (map (fun a => mul (mul four rho) a) (repeat one (length d))))
+      by (rewrite !map_length, repeat_length; reflexivity).
+    rewrite (np_bin_vv_eq add _ _ L1). cbn [bind].
+    set (det := map2 add (map (fun a => mul a a) d) (map (fun a => mul (mul four rho) a) (repeat one (length d)))).
+    assert (Ldet : length det = length d).
+    { unfold det. rewrite map2_length_eq by exact L1. rewrite map_length. reflexivity. }
+    assert (L2 : length (map sqrt det) = length d) by (rewrite map_length; exact Ldet).
+    rewrite (np_bin_vv_eq sub _ _ L2). cbn [bind].
+    unfold np_where at 1. cbn [nd_expand]. rewrite !map_length.
+    rewrite (map2_length_eq sub (map sqrt det) d L2), L2, Nat.eqb_refl. cbn [bind].
+    rewrite (np_bin_vv_eq add d (map sqrt det) (eq_sym L2)). cbn [bind].
+    unfold np_where. cbn [nd_expand]. rewrite !map_length.
+    assert (Lsafe : length (where_vv (map (fun a => ltb a zero) d) (map2 sub (map sqrt det) d) (repeat (flit "1.0") (length d))) = length d).
+    { rewrite where_vv_map3; [rewrite map_length, !combine_length, !map_length, repeat_length, map2_length_eq by exact L2; rewrite L2; lia
+                             | rewrite map_length, map2_length_eq by exact L2; exact L2
+                             | rewrite map_length, repeat_length; reflexivity]. }
+    rewrite Lsafe, Nat.eqb_refl.
+    rewrite (map2_length_eq add d (map sqrt det) (eq_sym L2)), Nat.eqb_refl. cbn [bind].
+    unfold det. rewrite (eigenvalue_vector rho d). unfold rho_scale. reflexivity.
+  Qed.
+End X.
+Print Assumptions g_x_update_prox_eq.
